@@ -622,6 +622,7 @@ type SpecSet struct {
 	Types   map[string]*TypeSpec
 	Ifaces  map[string]*IfaceSpec
 	Order   []string
+	GlobalGhosts []QVar
 }
 
 func newSpecSet() *SpecSet {
@@ -697,6 +698,7 @@ func (ss *SpecSet) loadSpecFile(path, pkg string) error {
 		switch word {
 		case "package":
 			pkg = rest
+			curF, curA, curT, curI = nil, nil, nil, nil
 		case "func":
 			curT, curI = nil, nil
 			name := rest
@@ -838,6 +840,9 @@ func (ss *SpecSet) loadSpecFile(path, pkg string) error {
 			f := strings.Fields(rest)
 			if len(f) >= 3 && f[0] == "var" && curF != nil {
 				curF.GhostVars = append(curF.GhostVars, QVar{f[1], strings.Join(f[2:], " ")})
+			} else if len(f) >= 3 && f[0] == "global" {
+				// declared outside any function: a global ghost variable, visible to every contract
+				ss.GlobalGhosts = append(ss.GlobalGhosts, QVar{f[1], strings.Join(f[2:], " ")})
 			} else {
 				return fmt.Errorf("%s:%d: bad ghost declaration", path, it.n)
 			}
